@@ -53,7 +53,9 @@ func GetLengthLimitedID(fixedPrefix, suffix string, maxLength int) string {
 	prefixLen := len(fixedPrefix)
 	suffixLen := len(suffix)
 	totalLen := prefixLen + suffixLen
-	if totalLen > maxLength || (totalLen == maxLength && suffix[0:1] == shortenedPrefix) {
+	// A shortened ID is the prefix, the marker and as much of the (43-character) hash as fits.
+	shortenedLen := min(maxLength, prefixLen+len(shortenedPrefix)+base64.RawURLEncoding.EncodedLen(sha256.Size))
+	if totalLen > maxLength || (totalLen == shortenedLen && suffix[0:1] == shortenedPrefix) {
 		// Either it's just too long, or it's exactly the right length but it happens to
 		// start with the character that we use to denote a shortened string, which could
 		// result in a clash.  Hash the value and truncate...
@@ -63,7 +65,7 @@ func GetLengthLimitedID(fixedPrefix, suffix string, maxLength int) string {
 			log.WithError(err).Panic("Failed to write suffix to hash.")
 		}
 		hash := base64.RawURLEncoding.EncodeToString(hasher.Sum(nil))
-		charsLeftForHash := maxLength - 1 - prefixLen
+		charsLeftForHash := min(maxLength-1-prefixLen, len(hash))
 		if charsLeftForHash <= 0 {
 			log.Panicf("GetLengthLimitedID: maxLength %d is too small for prefix %q (length %d); "+
 				"need at least %d", maxLength, fixedPrefix, prefixLen, prefixLen+2)
